@@ -94,6 +94,12 @@ def check(run, replay=None):
         except Exception as e:
             skipped += 1
             continue
+        # the model's default demand pattern (entries without a pattern follow options.hydraulic.pattern, whatever it currently names)
+        dflt0 = None
+        if spec["patterns"] and rng.random() < 0.4:
+            dflt0 = rng.choice(sorted(spec["patterns"]))
+            wn.options.hydraulic.pattern = dflt0
+            run.count("default_pattern_set")
         node_names = wn.junction_name_list + wn.tank_name_list + wn.reservoir_name_list
         link_names = wn.pipe_name_list + wn.head_pump_name_list + wn.power_pump_name_list + wn.valve_name_list
         nidx = {n: i for i, n in enumerate(node_names)}
@@ -159,8 +165,8 @@ def check(run, replay=None):
                     nm = j["name"]
                     if float(hd.loc[t, nm]) == 0.0 and float(dm.loc[t, nm]) == 0.0:
                         continue   # isolated (C09)
-                    es = "[" + "; ".join("(%s, %s)" % (q_of_float(x["base"]), "None" if x["pattern"] is None else
-                                                       "Some [%s]" % "; ".join(q_of_float(v) for v in pats[x["pattern"]]))
+                    es = "[" + "; ".join("(%s, %s)" % (q_of_float(x["base"]), "None" if (x["pattern"] or dflt0) is None else
+                                                       "Some [%s]" % "; ".join(q_of_float(v) for v in pats[x["pattern"] or dflt0]))
                                          for x in j["demands"]) + "]"
                     add_case("dd_demand_ok %s %s %d%%Z %d%%Z %d%%Z %s %s = true" % (
                         TOLD, es, step, ps, t, q_of_float(mult), q_of_float(float(dm.loc[t, nm]))),
@@ -174,6 +180,56 @@ def check(run, replay=None):
             add_case("row_ok %s %d%%nat %s %s = true" % (links_coq, nidx[jn_], tree,
                                                         "None" if leakvar is None else "(Some %d%%nat)" % leakvar),
                      {"spec": spec, "time": t, "junction": jn_, "check": "mass balance row shape", "row": tree[:400]})
+        # ---- the model is edited after its first use and simulated again: the second run must follow the CURRENT definitions
+        #      (default demand pattern, pattern multipliers, base values, demand multiplier) ----
+        if mode == "DD" and spec["junctions"] and rng.random() < (0.9 if thorough else 0.7):
+            import copy
+            pats2 = copy.deepcopy(pats)
+            dflt = dflt0
+            edits = []
+            names = sorted(pats2)
+            if names and rng.random() < 0.7:
+                dflt = rng.choice([n_ for n_ in names if n_ != dflt0] or names)
+                wn.options.hydraulic.pattern = dflt
+                edits.append("default pattern := %s" % dflt)
+            if names and rng.random() < 0.6:
+                pnm = rng.choice(names)
+                pats2[pnm] = [round(rng.uniform(0.3, 1.8), 2) for _ in range(rng.randint(2, 5))]
+                wn.get_pattern(pnm).multipliers = list(pats2[pnm])
+                edits.append("multipliers of %s := %s" % (pnm, pats2[pnm]))
+            mult2 = mult
+            if rng.random() < 0.5:
+                mult2 = rng.choice([0.5, 0.8, 1.2])
+                wn.options.hydraulic.demand_multiplier = mult2
+                edits.append("demand multiplier := %s" % mult2)
+            bases = {}
+            for j in spec["junctions"]:
+                if j["demands"] and rng.random() < 0.3:
+                    nb = round(rng.uniform(0.0005, 0.004), 4)
+                    wn.get_node(j["name"]).demand_timeseries_list[0].base_value = nb
+                    bases[j["name"]] = nb
+                    edits.append("base of %s[0] := %s" % (j["name"], nb))
+            wn.reset_initial_values()
+            res2, err2, warns2, sim2 = simrun.run(wntr, wn)
+            if edits and simrun.converged(res2, err2, warns2):
+                run.count("edited_reruns")
+                dm2, hd2 = res2.node["demand"], res2.node["head"]
+                for t in list(dm2.index)[:6]:
+                    t = int(t)
+                    for j in spec["junctions"]:
+                        nm = j["name"]
+                        if not j["demands"] or (float(hd2.loc[t, nm]) == 0.0 and float(dm2.loc[t, nm]) == 0.0):
+                            continue
+                        ents = []
+                        for i, x in enumerate(j["demands"]):
+                            b = bases[nm] if (i == 0 and nm in bases) else x["base"]
+                            pn_ = x["pattern"] if x["pattern"] is not None else dflt
+                            ents.append("(%s, %s)" % (q_of_float(b), "None" if pn_ is None else "Some [%s]" % "; ".join(q_of_float(v) for v in pats2[pn_])))
+                        add_case("dd_demand_ok %s %s %d%%Z %d%%Z %d%%Z %s %s = true" % (
+                            TOLD, "[" + "; ".join(ents) + "]", step, ps, t, q_of_float(mult2), q_of_float(float(dm2.loc[t, nm]))),
+                            {"spec": spec, "time": t, "check": "DD demand formula after a model edit", "edits_after_first_run": edits,
+                             "junction": nm, "reported": float(dm2.loc[t, nm])})
+                        run.case({"net": k, "t": t, "edited": nm}, True, None)
         if k < 2:
             run.samples.append({"spec": spec})
 
@@ -187,6 +243,7 @@ def check(run, replay=None):
         elif cid in res_:
             m = meta[cid]
             key = {"node balance": "reported_node_balance", "DD demand formula": "dd_demand_formula",
+                   "DD demand formula after a model edit": "dd_demand_formula_after_edit",
                    "mass balance row shape": "balance_row_shape"}[m["check"]]
             run.violation(key, "C01 predicate false on the implementation's output: " + m["check"], input=m)
     run.extra["networks_simulated"] = done
